@@ -75,7 +75,15 @@ func c19(args []string) error {
 				case c == 1:
 					return []any{build(depth + 1), "plain text", 42, build(depth + 1)}
 				case c == 2:
-					inner, _ := json.Marshal(map[string]any{"inner": plant("json", fmt.Sprintf("embedded%d", depth), r.Intn(2) == 0), "n": 1})
+					in := map[string]any{"inner": plant("json", fmt.Sprintf("embedded%d", depth), r.Intn(2) == 0), "n": 1}
+					if r.Intn(3) == 0 { // a large stringified document (several KB)
+						var list []any
+						for j := 0; j < 20+r.Intn(40); j++ {
+							list = append(list, map[string]any{"u": plant("json", fmt.Sprintf("embedded-big%d", depth), r.Intn(2) == 0), "note": strings.Repeat("lorem ipsum ", 4)})
+						}
+						in["items"] = list
+					}
+					inner, _ := json.Marshal(in)
 					return string(inner)
 				default:
 					return map[string]any{"a": build(depth + 1), "title": "not a url", "b": build(depth + 1), "n": nil, "ok": true}
@@ -126,7 +134,12 @@ func c19(args []string) error {
 				}
 				b.WriteString("#EXT-X-ENDLIST\n")
 			} else {
-				b.WriteString("#EXT-X-MEDIA:TYPE=AUDIO,GROUP-ID=\"aud\",NAME=\"en\",URI=\"" + plant("m3u8", "alternative", true) + "\"\n")
+				// several renditions per group, and more than one group
+				for gi, grp := range []string{"aud", "aud-hi"}[:1+r.Intn(2)] {
+					for li, lang := range []string{"en", "fr", "de"}[:1+r.Intn(3)] {
+						b.WriteString("#EXT-X-MEDIA:TYPE=AUDIO,GROUP-ID=\"" + grp + "\",NAME=\"" + lang + "\",DEFAULT=" + map[bool]string{true: "YES", false: "NO"}[li == 0] + ",URI=\"" + plant("m3u8", fmt.Sprintf("alternative-g%d-r%d", gi, li), true) + "\"\n")
+					}
+				}
 				for i := 0; i < 1+r.Intn(3); i++ {
 					b.WriteString("#EXT-X-STREAM-INF:BANDWIDTH=" + strconv.Itoa(100000*(i+1)) + ",AUDIO=\"aud\"\n" + plant("m3u8", "variant", true) + "\n")
 				}
